@@ -129,6 +129,13 @@ theorem version_equal_interchangeable (a b x : Version.Version) (h : Version.cmp
     Version.cmp a x = Version.cmp b x ∧ Version.cmp x a = Version.cmp x b :=
   ⟨Version.cmp_totalPre.congr_left h x, Version.cmp_totalPre.congr_right h x⟩
 
+/-- toolkit/types/version.go is a copy of version.go: the bodies of `Compare`,
+    `Contains` and `String` are the same text, so the theorems of this section
+    are about both (the harness drives both as well). -/
+theorem toolkit_copy_same_source :
+    Gen.Versions.toolkitCopySame = [("Version.Compare", true), ("Range.Contains", true), ("Version.String", true)] := by
+  decide
+
 /-- `(*Range).Contains` is membership in the half-open interval:
     `lower ≤ v` and `v < upper`. -/
 theorem range_contains_iff (r : Version.Range) (v : Version.Version) :
